@@ -768,6 +768,77 @@ run_direct(IMB_MGR *mgr)
                 t.hash_alg = IMB_AUTH_NULL;
                 OK("imb_set_session(template)b", (void) imb_set_session(mgr, &t));
         }
+        /* every entry point that works ON the manager (job API, asynchronous and synchronous burst API, checked and
+         * unchecked flavours) leaves the manager's own error field at 0 when it succeeds, whatever an earlier failing
+         * call on this manager left there: MOK() first makes such a call fail (the field then holds IMB_ERR_BURST_SIZE) */
+#define MOK(name, call)                                                                                             \
+        do {                                                                                                        \
+                (void) IMB_GET_NEXT_BURST(mgr, IMB_MAX_BURST_SIZE + 1, arr);                                        \
+                if (mgr->imb_errno != IMB_ERR_BURST_SIZE)                                                           \
+                        printf("D var=%s name=MOK-poison kind=fail expect=%d get=%d field=%d glob=%d\n", g_var,     \
+                               IMB_ERR_BURST_SIZE, imb_get_errno(mgr), mgr->imb_errno, imb_get_errno(NULL));        \
+                call;                                                                                               \
+                dline(name, 0, 0);                                                                                  \
+        } while (0)
+        {
+                static IMB_JOB sj[4];
+                static DECLARE_ALIGNED(uint8_t sbuf[4][64], 64);
+                static DECLARE_ALIGNED(uint8_t sout[4][64], 64);
+                static DECLARE_ALIGNED(uint8_t stag[4][64], 64);
+
+                while (IMB_FLUSH_JOB(mgr) != NULL)
+                        ;
+                MOK("after-fail:GET_NEXT_JOB", j = IMB_GET_NEXT_JOB(mgr));
+                fill_cbc(j, ek, dk, buf, iv);
+                MOK("after-fail:SUBMIT_JOB", (void) IMB_SUBMIT_JOB(mgr));
+                MOK("after-fail:GET_COMPLETED_JOB", (void) IMB_GET_COMPLETED_JOB(mgr));
+                MOK("after-fail:FLUSH_JOB", (void) IMB_FLUSH_JOB(mgr));
+                j = IMB_GET_NEXT_JOB(mgr);
+                fill_cbc(j, ek, dk, buf, iv);
+                MOK("after-fail:SUBMIT_JOB_NOCHECK", (void) IMB_SUBMIT_JOB_NOCHECK(mgr));
+                while (IMB_FLUSH_JOB(mgr) != NULL)
+                        ;
+                MOK("after-fail:QUEUE_SIZE", (void) IMB_QUEUE_SIZE(mgr));
+                MOK("after-fail:GET_NEXT_BURST", (void) IMB_GET_NEXT_BURST(mgr, 2, arr));
+                fill_cbc(arr[0], ek, dk, buf, iv);
+                fill_cbc(arr[1], ek, dk, buf, iv);
+                (void) imb_set_session(mgr, arr[0]);
+                (void) imb_set_session(mgr, arr[1]);
+                MOK("after-fail:SUBMIT_BURST", (void) IMB_SUBMIT_BURST(mgr, 2, arr));
+                MOK("after-fail:FLUSH_BURST", (void) IMB_FLUSH_BURST(mgr, IMB_MAX_BURST_SIZE, arr));
+                if (IMB_GET_NEXT_BURST(mgr, 2, arr) == 2) {
+                        fill_cbc(arr[0], ek, dk, buf, iv);
+                        fill_cbc(arr[1], ek, dk, buf, iv);
+                        (void) imb_set_session(mgr, arr[0]);
+                        (void) imb_set_session(mgr, arr[1]);
+                        MOK("after-fail:SUBMIT_BURST_NOCHECK", (void) IMB_SUBMIT_BURST_NOCHECK(mgr, 2, arr));
+                        while (IMB_FLUSH_BURST(mgr, IMB_MAX_BURST_SIZE, arr) != 0)
+                                ;
+                }
+                /* synchronous bursts */
+                for (int q = 0; q < 4; q++) {
+                        memset(&sj[q], 0, sizeof(sj[q]));
+                        sj[q].src = sbuf[q];
+                        sj[q].dst = sout[q];
+                        sj[q].iv = iv;
+                        sj[q].iv_len_in_bytes = 16;
+                        sj[q].enc_keys = ek;
+                        sj[q].dec_keys = dk;
+                        sj[q].key_len_in_bytes = 16;
+                        sj[q].msg_len_to_cipher_in_bytes = 32;
+                        sj[q].msg_len_to_hash_in_bytes = 40;
+                        sj[q].auth_tag_output = stag[q];
+                        sj[q].auth_tag_output_len_in_bytes = 20;
+                }
+                MOK("after-fail:SUBMIT_CIPHER_BURST",
+                    (void) IMB_SUBMIT_CIPHER_BURST(mgr, sj, 3, IMB_CIPHER_CBC, IMB_DIR_ENCRYPT, IMB_KEY_128_BYTES));
+                MOK("after-fail:SUBMIT_CIPHER_BURST_NOCHECK",
+                    (void) IMB_SUBMIT_CIPHER_BURST_NOCHECK(mgr, sj, 3, IMB_CIPHER_CBC, IMB_DIR_DECRYPT, IMB_KEY_128_BYTES));
+                MOK("after-fail:SUBMIT_HASH_BURST", (void) IMB_SUBMIT_HASH_BURST(mgr, sj, 3, IMB_AUTH_SHA_1));
+                MOK("after-fail:SUBMIT_HASH_BURST_NOCHECK", (void) IMB_SUBMIT_HASH_BURST_NOCHECK(mgr, sj, 3, IMB_AUTH_SHA_1));
+                MOK("after-fail:SUBMIT_HASH_BURST_NOCHECK(sha256)",
+                    (void) IMB_SUBMIT_HASH_BURST_NOCHECK(mgr, sj, 4, IMB_AUTH_SHA_256));
+        }
         /* job API: an invalid job is flagged and the next call is clean */
         j = IMB_GET_NEXT_JOB(mgr);
         fill_cbc(j, ek, dk, buf, iv);
